@@ -214,6 +214,8 @@ def random_case(rng, kinds=KINDS, allow_async=True, max_levels=3, max_group=3, m
             sid += 1
             sargs = [rng.choice(avail_names(kind, "pre"))] if rng.random() < 0.8 else rng.sample(
                 avail_names(kind, "pre"), min(2, len(avail_names(kind, "pre"))))
+            if rng.random() < 0.15:
+                sargs = []          # a capture without parameters (reads global / closure state): named explicitly
             lv["snaps"].append(snapshot(sid, "s%d" % sid, sargs, coro_fn=async_ and rng.random() < 0.2))
             total_snaps += 1
         for role, n in (("pre", npre), ("post", nposts)):
